@@ -52,6 +52,9 @@ func (fx *FuncExec) typeFromString(s string, pkg *types.Package) (sortName strin
 	if strings.HasPrefix(s, "$") {
 		return s[1:], nil
 	}
+	if strings.HasPrefix(s, "func(") {
+		return "Fn", nil
+	}
 	if strings.HasPrefix(s, "set[") && strings.HasSuffix(s, "]") {
 		es, _ := fx.typeFromString(s[4:len(s)-1], pkg)
 		return "(Array " + es + " Bool)", nil
@@ -484,6 +487,14 @@ func (e *SpecEnv) trCall(x *ast.CallExpr) Term {
 			}
 		}
 		e.fail("captured: literal %s does not capture %s", lk, vn)
+	case "methodval":
+		// methodval("pkg.(T).M", recv): the method value recv.M
+		need(2)
+		mk, _ := strconv.Unquote(exprString(args[0]))
+		recv := e.tr(args[1])
+		name := "mv_" + sanitize(mk)
+		fx.reg.declFun(name, fmt.Sprintf("(declare-fun %s (%s) Fn)", name, recv.Sort))
+		return Term{S: "(" + name + " " + recv.S + ")", Sort: "Fn"}
 	case "fncode":
 		// fncode(fn) == litcode("funcKey$n"): fn is a closure of that literal
 		need(1)
@@ -494,6 +505,30 @@ func (e *SpecEnv) trCall(x *ast.CallExpr) Term {
 		need(1)
 		lk, _ := strconv.Unquote(exprString(args[0]))
 		return Term{S: fmt.Sprint(fx.ctx.litCode(lk)), Sort: "Int"}
+	case "kept":
+		// kept(D1, D2, ...): in the heap components named by the designators (as in
+		// assigns clauses), every location that was allocated in the old state is unchanged
+		var conj []string
+		for _, a := range args {
+			d := exprString(a)
+			if bl, ok := a.(*ast.BasicLit); ok {
+				d, _ = strconv.Unquote(bl.Value)
+			}
+			for _, comp := range fx.compsOf(d, e.pkgOrDefault()) {
+				cs := fx.reg.compSort[comp]
+				ks, _ := arraySorts(cs)
+				al, ok := fx.reg.allocOf[ks]
+				if !ok {
+					continue // ghost variables etc.
+				}
+				fx.nq++
+				r := fmt.Sprintf("r!q%d", fx.nq)
+				cur, old := fx.H(e.cur, comp), fx.H(e.old, comp)
+				conj = append(conj, fmt.Sprintf("(forall ((%s %s)) (! (=> (select %s %s) (= (select %s %s) (select %s %s))) :pattern ((select %s %s))))",
+					r, ks, fx.H(e.old, al), r, cur, r, old, r, cur, r))
+			}
+		}
+		return Term{S: and(conj...), Sort: "Bool"}
 	case "sliceskept":
 		// sliceskept([]T): every backing array that existed in the old state is unchanged
 		need(1)
@@ -554,6 +589,15 @@ func (e *SpecEnv) trCall(x *ast.CallExpr) Term {
 		need(1)
 		v := e.tr(args[0])
 		return e.coerce(v, "Any")
+	case "strslice":
+		need(3)
+		fx.reg.declFun("str_slice", "(declare-fun str_slice (Str Int Int) Str)")
+		a, lo, hi := e.tr(args[0]), e.tr(args[1]), e.tr(args[2])
+		return Term{S: "(str_slice " + a.S + " " + lo.S + " " + hi.S + ")", Sort: "Str", T: types.Typ[types.String]}
+	case "lower", "upper":
+		need(1)
+		v := e.tr(args[0])
+		return Term{S: "(str_" + name + " " + v.S + ")", Sort: "Str", T: types.Typ[types.String]}
 	case "wrap32", "wrap8":
 		need(1)
 		v := e.tr(args[0])
